@@ -10,18 +10,29 @@ open Nomt.Wal (PageDiff)
 
 variable {Node VH : Type} [DecidableEq Node] [DecidableEq VH] (H : Hasher Node VH) (ps : PageSet Node)
 
+/-- nothing of the page set hangs below the pages `down` creates on the way `bits` from `p` -/
+def FreshBelow (p : Path) (bits : List Bool) : Prop :=
+  ∀ j, j < bits.length → (p ++ bits.take j).length % 6 = 0 → fullSum ps (specPage (p ++ bits.take (j + 1))) = 0
+
+theorem freshBelow_nil (p : Path) : FreshBelow ps p [] := by
+  intro j hj; simp at hj
+
 /-- `down` into fresh territory -/
 theorem sim_down (hfresh : ∀ P, (ps.fresh P).length = 126) : ∀ (bits : List Bool) (w : Walker Node) (a : TW Node),
     Sim H ps w a → a.pos.length + bits.length ≤ 256 →
     ((a.pos = [] ∧ w.parentPage = none) ∨ 6 * k0 w.parentPage < a.pos.length) →
+    FreshBelow ps a.pos bits →
     ∃ w', w.down ps bits true = .ok w' ∧ Sim H ps w' (a.down (cfgOf H ps w.parentPage) bits true) ∧ Same w w' ∧
       w'.childPageRoots = w.childPageRoots ∧ w'.root = w.root := by
   intro bits
   induction bits with
-  | nil => intro w a h _ _; exact ⟨w, rfl, h, Same.rfl' _, rfl, rfl⟩
+  | nil => intro w a h _ _ _; exact ⟨w, rfl, h, Same.rfl' _, rfl, rfl⟩
   | cons b bs ih =>
-    intro w a h hl hscope
-    obtain ⟨w1, hw1, hs1, hsame1, hcpr1, hroot1⟩ := sim_downBit H ps hfresh h b (by simp at hl; omega) hscope
+    intro w a h hl hscope hfb
+    obtain ⟨w1, hw1, hs1, hsame1, hcpr1, hroot1⟩ := sim_downBit H ps hfresh h b (by simp at hl; omega) hscope (by
+      intro h6
+      have := hfb 0 (by simp) (by simpa using h6)
+      simpa using this)
     have hpos1 : (a.downBit (cfgOf H ps w.parentPage) true b).pos = a.pos ++ [b] := tw_downBit_pos _ _ _ _
     have hscope1 : ((a.downBit (cfgOf H ps w.parentPage) true b).pos = [] ∧ w1.parentPage = none) ∨
         6 * k0 w1.parentPage < (a.downBit (cfgOf H ps w.parentPage) true b).pos.length := by
@@ -30,7 +41,11 @@ theorem sim_down (hfresh : ∀ P, (ps.fresh P).length = 126) : ∀ (bits : List 
       rcases hscope with ⟨hn, hp⟩ | hd
       · rw [hn, hp]; simp [k0]
       · simp; omega
-    obtain ⟨w2, hw2, hs2, hsame2, hcpr2, hroot2⟩ := ih w1 _ hs1 (by rw [hpos1]; simp at hl ⊢; omega) hscope1
+    obtain ⟨w2, hw2, hs2, hsame2, hcpr2, hroot2⟩ := ih w1 _ hs1 (by rw [hpos1]; simp at hl ⊢; omega) hscope1 (by
+      rw [hpos1]
+      intro j hj h6
+      have := hfb (j + 1) (by simp; omega) (by simpa using h6)
+      simpa using this)
     simp only [Walker.down, TW.down]
     rw [hw1]
     simp only
@@ -40,7 +55,8 @@ theorem sim_down (hfresh : ∀ P, (ps.fresh P).length = 126) : ∀ (bits : List 
 /-- `descend` -/
 theorem sim_descend (hfresh : ∀ P, (ps.fresh P).length = 126) (sd : Nat) (down : List Bool) {w : Walker Node} {a : TW Node}
     (h : Sim H ps w a) (hl : a.pos.length + down.length ≤ 256)
-    (hscope : (a.pos = [] ∧ w.parentPage = none) ∨ 6 * k0 w.parentPage < a.pos.length) :
+    (hscope : (a.pos = [] ∧ w.parentPage = none) ∨ 6 * k0 w.parentPage < a.pos.length)
+    (hfb : FreshBelow ps a.pos down) :
     ∃ w', w.descend ps sd down = .ok w' ∧ Sim H ps w' (a.down (cfgOf H ps w.parentPage) down true) ∧ Same w w' ∧
       w'.childPageRoots = w.childPageRoots ∧ w'.root = w.root := by
   have key : w.descend ps sd down = w.down ps down true := by
@@ -54,7 +70,7 @@ theorem sim_descend (hfresh : ∀ P, (ps.fresh P).length = 126) (sd : Nat) (down
            rw [downBit_hint]
            cases w.downBit ps true d0 <;> rfl)
   rw [key]
-  exact sim_down H ps hfresh down w a h hl hscope
+  exact sim_down H ps hfresh down w a h hl hscope hfb
 
 /-- the final write of a visitor call -/
 theorem sim_writeHere {w : Walker Node} {a : TW Node} (h : Sim H ps w a) (n : Node)
@@ -67,7 +83,7 @@ theorem sim_writeHere {w : Walker Node} {a : TW Node} (h : Sim H ps w a) (n : No
     rw [if_pos hroot]
     refine ⟨_, rfl, ?_, Same.rfl' _, rfl⟩
     have hstk : w.stack = [] := h.stackE.mpr (by rw [hn]; simp)
-    refine ⟨h.wf, h.pos, by simp [TW.setNode, hn, upd_same], h.stackE, h.stackT, h.chain, ?_, h.counters, h.recon.cast H rfl rfl rfl rfl rfl, h.cpr, h.outs, h.nofix, h.diffs⟩
+    refine ⟨h.wf, h.pos, by simp [TW.setNode, hn, upd_same], h.stackE, h.stackT, h.chain, ?_, h.counters, h.recon.cast H rfl rfl rfl rfl rfl, h.cpr, h.outs, h.nofix, h.diffs, h.acct, h.named.write_root hn _⟩
     intro sp hsp; rw [hstk] at hsp; cases hsp
   · have hne := sim_pos_ne (w := w) hd
     have hroot : ¬ w.position.isRoot = true := by
@@ -77,16 +93,22 @@ theorem sim_writeHere {w : Walker Node} {a : TW Node} (h : Sim H ps w a) (n : No
     obtain ⟨w', hw', hs', hsame, _, hcpr, _⟩ := sim_setNode H ps h hd n
     exact ⟨w', hw', hs', hsame, hcpr⟩
 
+/-- what a visitor call creates below the position: nothing of the page set hangs below it -/
+def VisitFresh (a : TW Node) : WriteNode Node VH → Prop
+  | .leaf false down _ _ _ => FreshBelow ps a.pos down
+  | .leaf true (_ :: rest) _ _ _ => FreshBelow ps (sibPath a.pos) rest
+  | _ => True
+
 /-- one visitor call -/
 theorem sim_visit (hs : H.Sound) (hfresh : ∀ P, (ps.fresh P).length = 126) (sd : Nat) {w : Walker Node} {a : TW Node}
     (h : Sim H ps w a) (c : WriteNode Node VH)
     (hsafe : VisitSafe (6 * k0 w.parentPage) w.parentPage.isNone a c)
-    (Lfin : List (PageId × Store Node))
-    (hfin : w.reconstruction = true → SmallBy H ps Lfin ∧
+    (hvf : VisitFresh ps a c)
+    (Lfin : List (PageId × Store Node)) (hnd : (Lfin.map (·.1)).Nodup)
+    (hfin : (w.reconstruction = true → SmallBy H ps Lfin) ∧
       (a.visit H (cfgOf H ps w.parentPage) sd c).log <+: Lfin) :
-    (∃ w', w.visit H ps sd c = .ok w' ∧ Sim H ps w' (a.visit H (cfgOf H ps w.parentPage) sd c) ∧ Same w w' ∧
-      w'.childPageRoots = w.childPageRoots) ∨
-    (w.reconstruction = false ∧ w.visit H ps sd c = .panic GUARD) := by
+    ∃ w', w.visit H ps sd c = .ok w' ∧ Sim H ps w' (a.visit H (cfgOf H ps w.parentPage) sd c) ∧ Same w w' ∧
+      w'.childPageRoots = w.childPageRoots := by
   have hnone : ∀ {P : Prop}, (P ∧ w.parentPage.isNone = true) → (P ∧ w.parentPage = none) :=
     fun hp => ⟨hp.1, Option.isNone_iff_eq_none.mp hp.2⟩
   unfold TW.visit at hfin
@@ -98,11 +120,11 @@ theorem sim_visit (hs : H.Sound) (hfresh : ∀ P, (ps.fresh P).length = 126) (sd
       rcases hsafe with hh | hh
       · exact Or.inl (hnone hh)
       · exact Or.inr hh
-    obtain ⟨w1, hw1, hs1, hsame1, hcpr1, _⟩ := sim_descend H ps hfresh sd [] h (by have := sim_len H ps h; simpa) hscope
+    obtain ⟨w1, hw1, hs1, hsame1, hcpr1, _⟩ := sim_descend H ps hfresh sd [] h (by have := sim_len H ps h; simpa) hscope (freshBelow_nil ps _)
     rw [hw1]
     simp only [TW.down] at hs1
     obtain ⟨w2, hw2, hs2, hsame2, hcpr2⟩ := sim_writeHere H ps hs1 H.term (by rw [hsame1.1]; exact hscope)
-    exact Or.inl ⟨w2, hw2, hs2, Same.trans' hsame1 hsame2, hcpr2.trans hcpr1⟩
+    exact ⟨w2, hw2, hs2, Same.trans' hsame1 hsame2, hcpr2.trans hcpr1⟩
   | leaf up down k v n =>
     cases up with
     | false =>
@@ -112,7 +134,7 @@ theorem sim_visit (hs : H.Sound) (hfresh : ∀ P, (ps.fresh P).length = 126) (sd
         rcases hsc with hh | hh
         · exact Or.inl (hnone hh)
         · exact Or.inr hh
-      obtain ⟨w1, hw1, hs1, hsame1, hcpr1, _⟩ := sim_descend H ps hfresh sd down h hl hscope
+      obtain ⟨w1, hw1, hs1, hsame1, hcpr1, _⟩ := sim_descend H ps hfresh sd down h hl hscope hvf
       rw [hw1]
       simp only
       have hpos1 : (a.down (cfgOf H ps w.parentPage) down true).pos = a.pos ++ down :=
@@ -124,7 +146,7 @@ theorem sim_visit (hs : H.Sound) (hfresh : ∀ P, (ps.fresh P).length = 126) (sd
           | nil => left; simp [hn, hp]
           | cons d0 dr => right; rw [hn, hp]; simp [k0]
         · right; simp; omega)
-      exact Or.inl ⟨w2, hw2, hs2, Same.trans' hsame1 hsame2, hcpr2.trans hcpr1⟩
+      exact ⟨w2, hw2, hs2, Same.trans' hsame1 hsame2, hcpr2.trans hcpr1⟩
     | true =>
       cases down with
       | nil => exact absurd hsafe (by simp [VisitSafe])
@@ -141,7 +163,7 @@ theorem sim_visit (hs : H.Sound) (hfresh : ∀ P, (ps.fresh P).length = 126) (sd
         have hd' : 6 * k0 ({ w with position := p' } : Walker Node).parentPage < (sibPath a.pos).length := by
           rw [sibPath_length]; exact hd
         obtain ⟨w1, hw1, hs1, hsame1, hcpr1, _⟩ := sim_descend H ps hfresh sd rest hsim
-          (by rw [sibPath_length]; exact hl) (Or.inr hd')
+          (by rw [sibPath_length]; exact hl) (Or.inr hd') hvf
         rw [hw1]
         simp only
         have hpos1 : (TW.down (cfgOf H ps w.parentPage) ({ a with pos := sibPath a.pos } : TW Node) rest true).pos =
@@ -152,7 +174,7 @@ theorem sim_visit (hs : H.Sound) (hfresh : ∀ P, (ps.fresh P).length = 126) (sd
           rw [hsame1.1]
           show 6 * k0 w.parentPage < (TW.down (cfgOf H ps w.parentPage) _ rest true).pos.length
           rw [hpos1]; simp [sibPath_length]; omega)
-        exact Or.inl ⟨w2, hw2, hs2, Same.trans' hsame1 hsame2, hcpr2.trans hcpr1⟩
+        exact ⟨w2, hw2, hs2, Same.trans' hsame1 hsame2, hcpr2.trans hcpr1⟩
   | internal l r n =>
     obtain ⟨hd, hup⟩ := hsafe
     have hne := sim_pos_ne (w := w) hd
@@ -179,15 +201,10 @@ theorem sim_visit (hs : H.Sound) (hfresh : ∀ P, (ps.fresh P).length = 126) (sd
     simp only
     have hpos1 : (if z = true then a.setSibling H.term else a).pos = a.pos := by
       cases z <;> rfl
-    rcases sim_up H ps hs1 (by rw [hsame1.1, hpos1]; exact hd) (by
+    obtain ⟨w2, hw2, hs2, hsame2, hcpr2, _⟩ := sim_up H ps hs1 (by rw [hsame1.1, hpos1]; exact hd) (by
       intro hr hdip
       have hr0 : w.reconstruction = true := by rw [← hsame1.2.2.2.2]; exact hr
-      obtain ⟨hsb, hpre⟩ := hfin hr0
-      exact hsb w1 _ hs1 hr hdip hpre) with ⟨w2, hw2, hs2, hsame2, hcpr2, _⟩ | ⟨hnr, hp⟩
-    case inr =>
-      right
-      refine ⟨by rw [← hsame1.2.2.2.2]; exact hnr, ?_⟩
-      rw [hp]
+      exact hfin.1 hr0 w1 _ hs1 hr hdip hfin.2) (new_of_prefix _ Lfin hnd hfin.2)
     rw [hw2]
     simp only
     have hpos2 : ((if z = true then a.setSibling H.term else a).up).pos = a.pos.dropLast := by
@@ -199,7 +216,7 @@ theorem sim_visit (hs : H.Sound) (hfresh : ∀ P, (ps.fresh P).length = 126) (sd
         rw [hpos2, hpar2]
         rcases hup with hh | hh
         · exact Or.inl (hnone hh)
-        · right; rw [List.length_dropLast]; exact hh)
+        · right; rw [List.length_dropLast]; exact hh) (freshBelow_nil ps _)
     rw [hw3]
     simp only [TW.down] at hs3
     simp only
@@ -208,7 +225,7 @@ theorem sim_visit (hs : H.Sound) (hfresh : ∀ P, (ps.fresh P).length = 126) (sd
       rcases hup with hh | hh
       · exact Or.inl (hnone hh)
       · right; rw [List.length_dropLast]; exact hh)
-    exact Or.inl ⟨w4, hw4, hs4, Same.trans' (Same.trans' (Same.trans' hsame1 hsame2) hsame3) hsame4,
+    exact ⟨w4, hw4, hs4, Same.trans' (Same.trans' (Same.trans' hsame1 hsame2) hsame3) hsame4,
       hcpr4.trans (hcpr3.trans (hcpr2.trans hcpr1))⟩
 
 end Nomt.Walker.G
